@@ -100,6 +100,15 @@ func (c *Ctx) headerWriter(enc, esc *ssa.Function) {
 		which string
 	}
 	var writes []wr
+	// Header.Encode and the methods of Header it hands part of the assembly to (a head builder, say)
+	encFam := map[*ssa.Function]bool{enc: true}
+	for _, ff := range c.familyOf(enc) {
+		if ff.Signature.Recv() != nil {
+			if nt, okN := derefNamedType(ff.Signature.Recv().Type()); okN && nt.Obj().Name() == "Header" {
+				encFam[ff] = true
+			}
+		}
+	}
 	res := c.RunE1([]*ssa.Function{enc}, false, func(a *absint.Analyzer, f *ssa.Function, st *absint.State, args []absint.Term) {
 		hdr, body, ht = args[0], args[1], f.Params[0].Type()
 		a.NameFields(st, hdr, ht, "", 0)
@@ -192,7 +201,7 @@ func (c *Ctx) headerWriter(enc, esc *ssa.Function) {
 			}
 		}
 		a.OnAppendUint = func(f2 *ssa.Function, site ssa.Instruction, st *absint.State, dst *absint.Slice, width int64, val absint.Term, le bool) {
-			if f2 != enc {
+			if !encFam[f2] {
 				return
 			}
 			// binary.BigEndian.AppendUint16(data, h.PlatformSerialNumber): the serial, big-endian
@@ -208,7 +217,7 @@ func (c *Ctx) headerWriter(enc, esc *ssa.Function) {
 			obs = append(obs, o)
 		}
 		a.OnAppend = func(f2 *ssa.Function, site ssa.Instruction, st *absint.State, dst *absint.Slice, src absint.Term) {
-			if f2 != enc {
+			if !encFam[f2] {
 				return
 			}
 			o := encObs{kind: "other", pos: dst.Len, site: site}
@@ -378,6 +387,12 @@ func (c *Ctx) headerWriter(enc, esc *ssa.Function) {
 			want := []string{"body", "serial", "phone"}
 			cur := last.Call.Args[0]
 			for _, w := range want {
+				// the head of the frame may be built by another method of Header: the rest of the chain lies there; where each
+				// part sits is established by the positional obligations above (phone at the header start, serial right after
+				// it, body after the serial, checksum after the body)
+				if hc, isHC := instrOf(cur).(*ssa.Call); isHC && hc.Call.StaticCallee() != nil && encFam[hc.Call.StaticCallee()] {
+					break
+				}
 				app, dst, isA := appendLike(instrOf(cur))
 				if !isA || siteKind[app] != w {
 					ok, d = false, fmt.Sprintf("the frame is not assembled in the order phone, serial, body, checksum (expected %s before)", w)
